@@ -236,4 +236,47 @@ example : decodeCD (encodeCD 0x7FFF [9, 8, 7]) = .ok (0x7FFF, [9, 8, 7]) := by d
 example : encodeCD 0x4000 [1] = [0x40, 0, 0, 1, 1, 0, 0, 0] := by decide
 example : isV4Mapped ([0,0,0,0,0,0,0,0,0,0,0xff,0xff,10,0,0,1] : Bytes) = true := by decide
 
+/-! ### STUN / ChannelData demultiplexing -/
+
+theorem chanValid_iff (n : Nat) : chanValid n = true ↔ 0x4000 ≤ n ∧ n ≤ 0x7FFF := by
+  unfold chanValid
+  constructor
+  · intro h
+    rw [Bool.and_eq_true] at h
+    exact ⟨of_decide_eq_true h.1, of_decide_eq_true h.2⟩
+  · intro h
+    rw [Bool.and_eq_true]
+    exact ⟨decide_eq_true h.1, decide_eq_true h.2⟩
+
+/-- demultiplexing: a 16-bit prefix is a valid channel number exactly when the first byte's two top
+    bits are `01` (RFC 5766 §11: 0x4000–0x7FFF) — so the classification never depends on the second byte -/
+theorem chanValid_iff_first_byte (b0 b1 : UInt8) :
+    chanValid (be16 b0 b1) = true ↔ 64 ≤ b0.toNat ∧ b0.toNat < 128 := by
+  have h0 := b0.toNat_lt; have h1 := b1.toNat_lt
+  rw [chanValid_iff]; unfold be16
+  omega
+
+/-- a STUN message (first two bits `00`) is never taken for ChannelData, whatever follows -/
+theorem stun_never_channeldata (b0 b1 b2 b3 : UInt8) (rest : Bytes) (h : b0.toNat < 64) :
+    isChannelData (b0 :: b1 :: b2 :: b3 :: rest) = false ∧
+    decodeCD (b0 :: b1 :: b2 :: b3 :: rest) = .error .badNumber := by
+  have hv : chanValid (be16 b0 b1) = false := by
+    cases hc : chanValid (be16 b0 b1) with
+    | false => rfl
+    | true => have := (chanValid_iff_first_byte b0 b1).1 hc; omega
+  constructor
+  · simp only [isChannelData, hv]; split <;> rfl
+  · simp [decodeCD, hv]
+
+/-- and what the encoder emits for a valid number always starts with the bits `01` -/
+theorem encodeCD_first_byte (num : Nat) (d : Bytes) (hn : chanValid num = true) :
+    ∃ b0 rest, encodeCD num d = b0 :: rest ∧ 64 ≤ b0.toNat ∧ b0.toNat < 128 := by
+  refine ⟨hi8 num, _, rfl, ?_⟩
+  rw [chanValid_iff] at hn
+  simp only [hi8, UInt8.toNat_ofNat']
+  omega
+
+example : chanValid (be16 0x40 0) = true ∧ chanValid (be16 0x7F 0xFF) = true ∧ chanValid (be16 0x80 0) = false ∧
+    chanValid (be16 0x3F 0xFF) = false := by decide
+
 end Turn.C11
